@@ -10,6 +10,8 @@ mod core;
 mod d1c03;
 mod d1req;
 mod d1stream;
+mod d2;
+mod exec;
 mod d4;
 mod gen;
 mod json;
